@@ -29,6 +29,8 @@ def run(ctx):
     progs, pool = F.c05_siblings(ctx.tier, rnd)
     agg = run_family("C05sib", progs, sorted(set(pool) | {"error"}), dev=dev, invariants=INVS, perms=(0, 1), timeout=900)
     ctx.add_family(agg)
+    for f in ctx.known():
+        ctx.witness(f)
     scope_check.run(ctx, rnd)
     reserved(ctx)
     ctx.exhaustive = True
